@@ -1,12 +1,23 @@
 """C46 — SuperSpeedStreamInEndpoint (luna/gateware/usb/usb3/endpoints/stream.py), driven at its
 SuperSpeedEndpointInterface (handshakes_in / handshakes_out / tx stream) by a reactive host model,
-a stream producer and a tx.ready pattern."""
+a stream producer and a tx.ready pattern.
+
+Three case kinds:
+  alone    the endpoint by itself; handshakes_out.ready / done are driven by a behavioural transaction packet
+           generator (requests taken only while ready, done for every completed packet -- the endpoint's NRDY, its
+           ERDY, packets of other endpoints --, bounded queue latency)
+  loop     the endpoint wired to the REAL TransactionPacketGenerator (protocol/transaction.py) as
+           USB3ProtocolLayer does (tp_generator.interface.connect(handshakes_out)); the header queue consumer applies
+           random back-pressure; the monitor judges the transaction packets handed to the queue
+  loopmux  the same through the REAL SuperSpeedEndpointMultiplexer (protocol/endpoint.py) with a second, idle
+           endpoint interface, as USBSuperSpeedDevice wires it
+"""
 from harness.common.framework import Case
 from harness.common.rng import Rng
 from harness.common import sim
 
 PROP = "C46"
-LEAN_MODULES = ["LunaVerif.Props.C46", "LunaVerif.Lemmas.C46View", "LunaVerif.Lemmas.C46Buf", "LunaVerif.Lemmas.C46Ghost",
+LEAN_MODULES = ["LunaVerif.Props.C46", "LunaVerif.Props.C46Erdy", "LunaVerif.Lemmas.C46View", "LunaVerif.Lemmas.C46Buf", "LunaVerif.Lemmas.C46Ghost",
                 "LunaVerif.Lemmas.C46StepIdle", "LunaVerif.Lemmas.C46StepSend", "LunaVerif.Lemmas.C46StepAck",
                 "LunaVerif.Props.C46Once", "LunaVerif.Lemmas.C46Frame", "LunaVerif.Lemmas.C46FrameStep1",
                 "LunaVerif.Lemmas.C46FrameStep2", "LunaVerif.Props.C46Framing"]
@@ -14,13 +25,20 @@ DRIVER = "Driver/C46.lean"
 REQUIRED_THEOREMS = ["seq_advances_only_on_ack", "seq_advances_on_accepting_ack", "retry_resends_same",
                      "nrdy_then_erdy", "in_request_answered", "header_fields_always", "last_word_held",
                      "ss_in_buffers_partial",
+                     "hs_refines_core", "loop_refines_core", "loop_exactly_once", "loop_framing", "loop_inv_step",
+                     "loop_nrdy_then_erdy", "loop_erdy_within_bound", "loop_tp_names_endpoint", "unrepaired_loses_erdy",
                      "view_next", "inv_step", "ss_in_exactly_once", "ss_in_delivered_prefix", "ss_in_all_delivered",
                      "invF_step", "ss_in_framing", "ss_in_packets_prefix", "ss_in_packets_bytes"]
 RULE = ("cases = (max_packet_size in 8/16/32/64(/1024 thorough), endpoint 1..15) x reactive scripts: producer transfers with "
         "lengths around 0/mps/2*mps, partial last words, idle gaps, continuous (last=0) mode; host issuing IN requests "
         "(ACK TP with NumP>=1), accepting with NumP 0/1, asking for retries (Retry=1 or repeated sequence number), "
         "honouring NRDY/ERDY flow control, traffic for other endpoints; tx.ready always / random / bursts; plus "
-        "unstructured random handshakes and ep_reset (co-simulation only)")
+        "unstructured random handshakes and ep_reset (co-simulation only); three kinds: endpoint alone with a behavioural "
+        "transaction packet generator driving handshakes_out.ready/done (done for the endpoint's NRDY, its ERDY and foreign "
+        "packets, queue latency 0..lmax), closed loop with the REAL TransactionPacketGenerator (direct connect as in "
+        "USB3ProtocolLayer) and through the REAL SuperSpeedEndpointMultiplexer (as in USBSuperSpeedDevice) with random "
+        "header-queue back-pressure <= lmax in {0,1,2,5,12}; 64 directed closed-loop races (completing word -3..+10 cycles "
+        "around the IN request x queue latency 0/1/3/8 x direct/mux)")
 ASSUMPTIONS = [
     "producer: stream.valid is a byte-prefix mask, a partial word only together with last, word held until ready",
     "host: one outstanding data packet; ACK TPs answer the packet last sent; no IN request while flow-controlled by NRDY",
@@ -29,6 +47,9 @@ ASSUMPTIONS = [
     "number the host expects (the host accepts a packet iff it carries that number and the link did not lose it); "
     "Retry bit, NumP, tx.ready, done, flow control arbitrary; configuration: max_packet_size % 4 = 0, >= 8, "
     "max_packet_size/4 <= 2^address_width",
+    "closed loop (loop_* theorems, loop/loopmux cases): the transaction packet generator serves this endpoint only (no "
+    "send_ack/send_stall of other endpoints; the multiplexer performs no arbitration); loop_erdy_within_bound and the "
+    "monitor clause ss-in-erdy-late: the header queue never lets more than L consecutive cycles pass without ready",
 ]
 PARTIAL = ("the theorems are about SuperSpeedStreamInEndpoint as repaired by six fix: commits (branch wt-ssep: 1df4da8 ddf15b0 "
            "ce4a978 f170f77 50f0842 5e057c5, cherry-picked into /repo); the unrepaired code violated C46 in six ways "
@@ -40,24 +61,40 @@ PARTIAL = ("the theorems are about SuperSpeedStreamInEndpoint as repaired by six
            "equal to the co-simulated model (view_next); nrdy_then_erdy; plus the one-step theorems (sequence number, "
            "retry, IN request answered, header fields, tx word held). NOT covered: max_packet_size = 4 (CfgOK needs >= 8): "
            "there the property is FALSE of the gateware -- with one-word buffers a word written in the cycle of an ACK+IN "
-           "buffer swap is sent stale (Lean example hStale, replayed on the real gateware, notes/C46.md); the ERDY "
-           "liveness is the one-step theorem nrdy_leads_to_erdy_request (no bound in cycles is stated).")
+           "buffer swap is sent stale (Lean example hStale, replayed on the real gateware, notes/C46.md). "
+           "NRDY/ERDY: the model and theorems are about the endpoint as repaired by three further fix: commits (branch "
+           "wt-c46b: 5cb0fa7 the done of the endpoint's own NRDY was taken for the done of its ERDY -- no ERDY ever sent when "
+           "the packet completes while the NRDY is in the generator; bb087f4 handshakes_out.endpoint_number never driven -- "
+           "NRDY/ERDY named endpoint 0; 113cd23 SuperSpeedEndpointMultiplexer dropped send_nrdy/send_erdy); closed loop with "
+           "the C45 generator model: loop_nrdy_then_erdy, loop_erdy_within_bound (ERDY handed to the header queue within "
+           "2L+4 cycles), loop_exactly_once, loop_framing; not covered: a generator shared with other requesting endpoints "
+           "(a one-cycle send_nrdy strobe is lost while the generator is busy with another endpoint's packet).")
 
 T_ANSWER = 24
 T_STUCK = 120
+T_REQ = 4          # cycles the endpoint may take to raise send_erdy once a packet is complete after an NRDY
+KINDS = {"alone": 0, "loop": 1, "loopmux": 2}
+SUB_NRDY, SUB_ERDY = 2, 3
+
+
+K_ERDY = T_REQ + 5
+# K_ERDY: cycles, not counting those in which the transaction packet generator is stalled by the header queue, from
+# "packet complete after an NRDY" to "ERDY handed to the header queue": T_REQ to raise the request, the hand-over of the
+# packet possibly in progress (the NRDY or a foreign packet), one DISPATCH cycle, the hand-over of the ERDY, slack 2.
+# With at most L consecutive stall cycles that is the bound 2 L + 4 of the Lean theorem loop_erdy_within_bound.
 
 
 # ------------------------------------------------------------------------------------------ cases
 def _idle():
-    return [0, 0, 0, 1, 0, 0, 0, 0, 0, 0, 0]
+    return [0, 0, 0, 1, 0, 0, 0, 0, 0, 0, 0, 1]
 
 
 def _word(d, last):
-    return [15, last, d, 1, 0, 0, 0, 0, 0, 0, 0]
+    return [15, last, d, 1, 0, 0, 0, 0, 0, 0, 0, 1]
 
 
 def _tp(retry, nxt, nump):
-    return [0, 0, 0, 1, 1, 1, retry, nxt, nump, 0, 0]
+    return [0, 0, 0, 1, 1, 1, retry, nxt, nump, 0, 0, 1]
 
 
 def directed():
@@ -75,11 +112,21 @@ def directed():
         "zlp_retry_advances": sent_full_last + [_tp(0, 1, 1), _tp(1, 1, 1)] + tail,
         "in_request_unanswered": sent_one + [_tp(0, 1, 1)] + [_idle()] * 30,
         # a one-word transfer is accepted in the very cycle of the accepting ACK, the host polls, gets NRDY, and waits
-        "short_packet_stuck": sent_one + [[15, 1, 0x55555555, 1, 1, 1, 0, 1, 0, 0, 0]] + [_idle()] * 3 + [_tp(0, 1, 1)]
+        "short_packet_stuck": sent_one + [[15, 1, 0x55555555, 1, 1, 1, 0, 1, 0, 0, 0, 1]] + [_idle()] * 3 + [_tp(0, 1, 1)]
                               + [_idle()] * (T_STUCK + 20),
     }
-    return [{"mps": 8, "ep": 1, "mode": "script", "seed": 0, "k": 0, "directed": name, "stimulus": rows}
-            for name, rows in sorted(hist.items())]
+    out = [{"mps": 8, "ep": 1, "mode": "script", "kind": "alone", "seed": 0, "k": 0, "directed": name, "stimulus": rows}
+           for name, rows in sorted(hist.items())]
+    # closed loop: an IN request `d` cycles after the word that completes the packet is offered (d <= 0: the request
+    # comes first or in the very cycle of the buffer swap), every header waits `lat` cycles for the queue.  On the
+    # unrepaired endpoint the NRDY's done was taken for the ERDY's whenever the packet completed while the NRDY was
+    # still in the generator.
+    for kind in ("loop", "loopmux"):
+        for lat in (0, 1, 3, 8):
+            for d in (-3, -1, 0, 1, 2, 4, 6, 10):
+                out.append({"mps": 8, "ep": 3, "mode": "script", "kind": kind, "seed": 1000 * lat + d + 50, "k": 0,
+                            "directed": "race_d%+d_lat%d" % (d, lat), "race": [d, lat], "lmax": lat})
+    return out
 
 
 def gen_cases(tier, rng):
@@ -89,24 +136,57 @@ def gen_cases(tier, rng):
         mps = rng.weighted([(4, 8), (4, 16), (3, 32), (1, 64)])
         if tier == "thorough" and k % 100 == 7:
             mps = 1024
-        out.append({"mps": mps, "ep": rng.range(1, 15), "mode": "wild" if k % 8 == 7 else "script",
-                    "seed": rng.u64(), "k": k})
+        kind = "alone" if k % 3 == 0 else ("loop" if k % 3 == 1 else "loopmux")
+        out.append({"mps": mps, "ep": rng.range(1, 15), "mode": "wild" if k % 8 == 7 else "script", "kind": kind,
+                    "lmax": rng.choice([0, 1, 2, 5, 12]), "seed": rng.u64(), "k": k})
     return out
 
 
 # ------------------------------------------------------------------------------------------ stimulus agents
-IN_NAMES = ["s_valid", "s_last", "s_data", "tx_ready", "ack", "hs_ep", "retry", "next_seq", "nump", "done", "ep_reset"]
+IN_NAMES = ["s_valid", "s_last", "s_data", "tx_ready", "ack", "hs_ep", "retry", "next_seq", "nump", "done", "ep_reset",
+            "hs_ready"]
+# closed loop: column 9 is header_source.ready (the generator drives done), column 11 the generator's device address
+IN_NAMES_LOOP = IN_NAMES[:9] + ["q_ready", "ep_reset", "address"]
 OUT_NAMES = ["s_ready", "tx_valid", "tx_first", "tx_last", "tx_data", "tx_zlp", "tx_length", "tx_seq", "tx_ep",
-             "send_nrdy", "send_erdy"]
-O = {n: i for i, n in enumerate(OUT_NAMES)}
+             "send_nrdy", "send_erdy", "hs_out_ep"]
+OUT_NAMES_LOOP = OUT_NAMES + ["gen_ready", "gen_done", "hdr_valid", "hdr_dw0", "hdr_dw1"]
+O = {n: i for i, n in enumerate(OUT_NAMES_LOOP)}
 I = {n: i for i, n in enumerate(IN_NAMES)}
+I["q_ready"], I["address"] = 9, 11
+
+
+class PyGen:
+    """Behavioural transaction packet generator for the `alone` kind (interface level): a request is taken only while
+    ready (ERDY before NRDY), the packet then waits 0..lmax cycles for the header queue, done is pulsed when it is
+    handed over; now and then the generator is busy with a packet of another endpoint.  Moore: ready/done of a cycle
+    do not depend on the endpoint's outputs of that cycle."""
+
+    def __init__(self, rng, lmax, p_foreign):
+        self.r, self.lmax, self.pf = rng, lmax, p_foreign
+        self.kind, self.wait, self.need = None, 0, 0
+
+    def outputs(self):
+        return int(self.kind is None), int(self.kind is not None and self.wait >= self.need)
+
+    def update(self, send_nrdy, send_erdy):
+        """returns the kind of the packet completed in this cycle, or None"""
+        if self.kind is None:
+            self.kind = "erdy" if send_erdy else "nrdy" if send_nrdy else "foreign" if self.r.chance(self.pf) else None
+            self.wait, self.need = 0, self.r.range(0, self.lmax)
+            return None
+        if self.wait >= self.need:
+            k, self.kind = self.kind, None
+            return k
+        self.wait += 1
+        return None
 
 
 class Agent:
     """Generates the inputs of cycle t from what was observed up to cycle t-1."""
 
-    def __init__(self, rng, mps, ep, mode, k):
+    def __init__(self, rng, mps, ep, mode, k, kind="alone", lmax=3, race=None):
         self.r, self.mps, self.ep, self.mode = rng, mps, ep, mode
+        self.kind, self.lmax, self.race = kind, lmax, race
         # producer
         self.continuous = (k % 11 == 5)
         # "benign" profile: stays clear of the recorded defects for as long as the producer has data (producer always
@@ -139,13 +219,30 @@ class Agent:
         self.flow = False
         self.flow_t = 0
         self.tmo = 0
-        self.erdy_cnt = 0
-        self.erdy_need = rng.range(1, 4)
         self.p_retry = rng.choice([0, 10, 25, 40])
         self.issued_in = False
         if self.benign:
             self.pgap, self.pstart, self.rdy_kind = 0, 0, "all"
             self.hdelay = mps // 4 + 5 + rng.range(0, 5)
+        self.teaser = (k % 5 == 2) and not self.continuous and not self.benign and mode == "script"
+        self.tease_from, self.release_at, self.held = 0, None, 0
+        # transaction packet generator side
+        self.gen = PyGen(rng, lmax, rng.choice([0, 0, 3, 10]))
+        self.q_wait, self.q_need = 0, rng.range(0, lmax)
+        self.q_fixed = None
+        self.address = rng.below(128)
+        if race is not None:
+            # one short transfer whose last word is offered `d` cycles after the first IN request; then normal traffic
+            d, lat = race
+            self.pgap, self.rdy_kind, self.continuous, self.benign = 0, "all", False, False
+            self.hdelay = 20
+            self.pstart = 20 + d - (mps // 4 - 1)          # mps/4 - 1 words before the completing one
+            self.q_fixed = lat
+            self.teaser = True
+            first = rng.bytes(mps - 2)
+            self.tease_from = (mps - 2 + 3) // 4
+            self.words = [((1 << len(first[j:j + 4])) - 1, int(j + 4 >= mps - 2),
+                           sum(b << (8 * q) for q, b in enumerate(first[j:j + 4]))) for j in range(0, mps - 2, 4)] + self.words
 
     def ready_bit(self):
         if self.rdy_kind == "all":
@@ -161,8 +258,17 @@ class Agent:
     def drive(self, t):
         r = self.r
         row = [0] * len(IN_NAMES)
-        # producer
-        if not self.present and self.wi < len(self.words) and t >= self.pstart and not r.chance(self.pgap):
+        # producer ("teaser": the word that ends a transfer is withheld until shortly after the next NRDY, so that the
+        # packet completes while that NRDY is still in the transaction packet generator, or just after)
+        if (self.teaser and not self.present and self.wi < len(self.words) and self.words[self.wi][1]
+                and self.wi >= self.tease_from):
+            if self.release_at is None:
+                self.held += 1
+                if self.held > 150:
+                    self.release_at = t
+            if self.release_at is not None and t >= self.release_at:
+                self.present, self.release_at, self.held = True, None, 0
+        elif not self.present and self.wi < len(self.words) and t >= self.pstart and not r.chance(self.pgap):
             self.present = True
         if self.present:
             v, l, d = self.words[self.wi]
@@ -171,9 +277,17 @@ class Agent:
             row[I["s_data"]] = r.bits(32)
             row[I["s_last"]] = r.below(2)
         row[I["tx_ready"]] = self.ready_bit()
-        # done strobe of the transaction packet generator
-        if self.erdy_cnt >= self.erdy_need:
-            row[I["done"]] = 1
+        # transaction packet generator: ready / done (alone), header queue back-pressure and address (closed loop)
+        if self.kind == "alone":
+            row[I["hs_ready"]], row[I["done"]] = self.gen.outputs()
+            if self.mode == "wild" and r.chance(10):
+                row[I["hs_ready"]], row[I["done"]] = r.below(2), r.below(2)
+        else:
+            need = self.q_fixed if self.q_fixed is not None else self.q_need
+            row[I["q_ready"]] = int(self.q_wait >= need)
+            if self.mode == "wild" and r.chance(2):
+                self.address = r.below(128)
+            row[I["address"]] = self.address
         # host
         self.issued_in = False
         hs = None
@@ -183,8 +297,6 @@ class Agent:
                       r.choice([self.dseq, (self.dseq + 1) % 32, r.below(32)]), r.choice([0, 1, 1, 2, r.below(32)]))
             if r.chance(1):
                 row[I["ep_reset"]] = 1
-            if r.chance(3):
-                row[I["done"]] = 1
         elif self.hstate == "idle":
             if self.flow:
                 self.flow_t += 1
@@ -228,10 +340,21 @@ class Agent:
         if self.present and o[O["s_ready"]]:
             self.present = False
             self.wi += 1
-        self.erdy_cnt = self.erdy_cnt + 1 if (o[O["send_erdy"]] and not row[I["done"]]) else 0
-        if o[O["send_erdy"]] and row[I["done"]]:
+        if self.teaser and o[O["send_nrdy"]] and self.release_at is None:
+            self.release_at = t + 1 + self.r.choice([0, 0, 1, 2, 3, self.lmax, self.lmax + 1, self.lmax + 3])
+        # has an ERDY for this endpoint been handed to the header queue in this cycle?
+        if self.kind == "alone":
+            erdy_sent = self.gen.update(o[O["send_nrdy"]], o[O["send_erdy"]]) == "erdy"
+        else:
+            erdy_sent = False
+            if o[O["hdr_valid"]]:
+                if row[I["q_ready"]]:
+                    erdy_sent = (o[O["hdr_dw1"]] & 15) == SUB_ERDY
+                    self.q_wait, self.q_need = 0, self.r.range(0, self.lmax)
+                else:
+                    self.q_wait += 1
+        if erdy_sent:
             self.flow = False
-            self.erdy_need = self.r.range(1, 4)
             self.hdelay = self.r.range(0, 10)
         if self.mode == "wild":
             if o[O["tx_ep"]] == self.ep:
@@ -269,6 +392,7 @@ def run_reactive(dut, inputs, outputs, agent, ncycles, fixed=None, domain="ss"):
         n = len(fixed) if fixed is not None else ncycles
         for t in range(n):
             row = list(fixed[t]) if fixed is not None else agent.drive(t)
+            row = row + [1] * (len(inputs) - len(row))      # rows recorded before the hs_ready column existed
             row = [v & m for v, m in zip(row, imask)]
             for sig, v in zip(inputs, row):
                 ctx.set(sig, v)
@@ -290,9 +414,14 @@ def mask_bytes(v, d):
     return [(d >> (8 * j)) & 0xFF for j in range(n)]
 
 
-def monitor(mps, ep, stim, rows):
+def monitor(mps, ep, stim, rows, kind="alone"):
     """The host-view property on the real trace.  Returns (failures, tags); stops at the first failure."""
     tags = set()
+    loop = kind != "alone"
+    gen_busy = None        # what the transaction packet generator is working on: (kind, cycle of the request)
+    requests = []          # closed loop: requests the real generator has taken, not yet seen on the header queue
+    taken_at = None        # closed loop: cycle in which the generator took a request (its header is due one cycle later)
+    busy_cycles = 0        # cycles counted towards K_ERDY
     accepted = []          # bytes the endpoint accepted from the producer
     ends = set()           # byte offsets at which a transfer ended
     ndeliv = 0             # bytes the host has accepted
@@ -306,8 +435,10 @@ def monitor(mps, ep, stim, rows):
     prev = None
     last_full = False      # the last delivered packet was max size and ended its transfer exactly
 
+    noted = []             # failures that do not end the evaluation (wrong endpoint number in NRDY / ERDY)
+
     def fail(t, sig, what):
-        return [{"cycle": t, "sig": sig, "what": what}], sorted(tags)
+        return noted + [{"cycle": t, "sig": sig, "what": what}], sorted(tags)
 
     def check_packet(t, p):
         nonlocal outstanding, want_retx, pending_in
@@ -386,6 +517,10 @@ def monitor(mps, ep, stim, rows):
                     if o[O["send_nrdy"]]:
                         tags.add("dev:nrdy")
                         flow = True
+                    elif flow:
+                        # the host polls although it is flow-controlled (its ERDY time-out): outside the environment
+                        # assumption; REQUEST_IN_TOKEN gives no answer, the ERDY is on its way
+                        tags.add("host:in-while-flow-controlled")
                     else:
                         pending_in = t
             else:
@@ -406,10 +541,51 @@ def monitor(mps, ep, stim, rows):
                     tags.add("host:retry")
                     want_retx = True
                     pending_in = t
+        # transaction packets: which requests does the generator take, which packets does it complete
         if o[O["send_erdy"]]:
             tags.add("dev:erdy")
+        if (o[O["send_nrdy"]] or o[O["send_erdy"]]) and o[O["hs_out_ep"]] != ep and not noted:
+            noted = fail(t, "ss-in-tp-endpoint", "%s requested for endpoint %d (handshakes_out.endpoint_number), this is "
+                         "endpoint %d" % ("ERDY" if o[O["send_erdy"]] else "NRDY", o[O["hs_out_ep"]], ep))[0]
+        erdy_sent = False
+        if not loop:
+            # done completes the request the generator took last; ready means it is idle and takes the request of this
+            # cycle (ERDY before NRDY).  (Rows recorded before the hs_ready column existed have ready = 1 throughout.)
             if i[I["done"]]:
-                flow = False
+                tags.add("gen:done-" + (gen_busy or "foreign"))
+                if gen_busy == "nrdy" and o[O["send_erdy"]]:
+                    tags.add("gen:nrdy-done-while-erdy-requested")
+                erdy_sent = gen_busy == "erdy"
+                gen_busy = None
+            if i[I["hs_ready"]]:
+                gen_busy = "erdy" if o[O["send_erdy"]] else "nrdy" if o[O["send_nrdy"]] else None
+        else:
+            # a request made while the generator is ready is taken: its header is offered to the queue from the next cycle
+            if taken_at is not None and not o[O["hdr_valid"]]:
+                return fail(t, "ss-in-tp-missing", "%s requested at cycle %d while the transaction packet generator was "
+                            "ready produced no transaction packet" % (requests[-1][0].upper(), taken_at))
+            taken_at = None
+            if (o[O["send_nrdy"]] or o[O["send_erdy"]]) and o[O["gen_ready"]]:
+                requests.append(("erdy" if o[O["send_erdy"]] else "nrdy", t))
+                taken_at = t
+            if o[O["hdr_valid"]] and i[I["q_ready"]]:
+                sub, hep, dirn = o[O["hdr_dw1"]] & 15, (o[O["hdr_dw1"]] >> 8) & 15, (o[O["hdr_dw1"]] >> 7) & 1
+                name = {SUB_NRDY: "nrdy", SUB_ERDY: "erdy"}.get(sub, "subtype %d" % sub)
+                tags.add("tp:" + name)
+                if o[O["gen_done"]] and o[O["send_erdy"]] and name == "nrdy":
+                    tags.add("gen:nrdy-done-while-erdy-requested")
+                if not requests or requests[0][0] != name:
+                    return fail(t, "ss-in-tp-wrong", "transaction packet %s handed to the header queue, requested were %s"
+                                % (name, [k for k, _ in requests]))
+                if (hep != ep or dirn != 1) and not noted:
+                    return fail(t, "ss-in-tp-endpoint", "%s transaction packet names endpoint %d direction %d, this is "
+                                "endpoint %d IN" % (name.upper(), hep, dirn, ep))
+                requests.pop(0)
+                erdy_sent = name == "erdy"
+        if erdy_sent:
+            if not flow:
+                tags.add("dev:erdy-unsolicited")
+            flow = False
         if done_pkt is not None:
             bad = check_packet(t, done_pkt)
             if bad:
@@ -421,37 +597,95 @@ def monitor(mps, ep, stim, rows):
         if cur is not None:
             pending_in = None
         # after NRDY: ERDY once a complete packet is buffered
+        # and the ERDY is handed to the header queue within K_ERDY cycles, not counting the cycles in which the generator
+        # is stalled by the header queue
         complete = (len(accepted) - ndeliv >= mps) or any(ndeliv < e <= len(accepted) for e in ends)
-        if flow and complete and outstanding is None and not o[O["send_erdy"]]:
+        stalled = (o[O["hdr_valid"]] and not i[I["q_ready"]]) if loop else (not i[I["hs_ready"]] and not i[I["done"]])
+        if flow and complete and outstanding is None:
+            if not stalled:
+                busy_cycles += 1
             if avail_since is None:
-                avail_since = t
-            elif t - avail_since > T_STUCK:
-                return fail(t, "ss-in-no-erdy", "NRDY was sent, a complete packet has been buffered since cycle %d, "
-                            "but no ERDY was requested" % avail_since)
+                avail_since, busy_cycles = t, 0
+                tags.add("erdy:owed")
+            elif t - avail_since >= T_REQ and not o[O["send_erdy"]]:
+                return fail(t, "ss-in-no-erdy", "NRDY was sent, a complete packet has been buffered since cycle %d, the "
+                            "ERDY has not been sent, but send_erdy is not asserted" % avail_since)
+            elif busy_cycles > K_ERDY:
+                return fail(t, "ss-in-erdy-late", "NRDY was sent, a complete packet has been buffered since cycle %d, but "
+                            "no ERDY was handed to the header queue within %d cycles (%d of them not stalled by the queue)"
+                            % (avail_since, t - avail_since, busy_cycles))
         else:
+            if avail_since is not None:
+                tags.add("erdy:latency<=%d" % (4 * ((t - avail_since + 3) // 4)))
             avail_since = None
-    return [], sorted(tags)
+    return noted, sorted(tags)
 
 
 # ------------------------------------------------------------------------------------------ run
+def build_loop(ep_dut, via_mux):
+    """The endpoint wired to the real TransactionPacketGenerator as the library does it: directly
+    (USB3ProtocolLayer: tp_generator.interface.connect(endpoint_interface.handshakes_out)) or through the
+    SuperSpeedEndpointMultiplexer (USBSuperSpeedDevice) together with a second, idle endpoint interface."""
+    from amaranth import Elaboratable, Module
+    from luna.gateware.usb.usb3.protocol.transaction import TransactionPacketGenerator
+    from luna.gateware.usb.usb3.protocol.endpoint import SuperSpeedEndpointMultiplexer, SuperSpeedEndpointInterface
+
+    class Loop(Elaboratable):
+        def __init__(self):
+            self.ep = ep_dut
+            self.gen = TransactionPacketGenerator()
+            self.mux = None
+            if via_mux:
+                self.mux = SuperSpeedEndpointMultiplexer()
+                self.mux.add_interface(SuperSpeedEndpointInterface())       # an endpoint that never requests anything
+                self.mux.add_interface(ep_dut.interface)
+            self.shared = self.mux.shared if via_mux else ep_dut.interface
+
+        def elaborate(self, platform):
+            m = Module()
+            m.submodules.ep = self.ep
+            m.submodules.tp_generator = self.gen
+            if self.mux is not None:
+                m.submodules.endpoint_mux = self.mux
+            m.d.comb += self.gen.interface.connect(self.shared.handshakes_out)
+            return m
+
+    return Loop()
+
+
 def run_case(desc):
     from luna.gateware.usb.usb3.endpoints.stream import SuperSpeedStreamInEndpoint
     mps, ep = desc["mps"], desc["ep"]
+    kind = desc.get("kind", "alone")
     dut = SuperSpeedStreamInEndpoint(endpoint_number=ep, max_packet_size=mps)
     itf = dut.interface
-    hin, hout = itf.handshakes_in, itf.handshakes_out
-    ins = [dut.stream.valid, dut.stream.last, dut.stream.payload, itf.tx.ready, hin.ack_received, hin.endpoint_number,
-           hin.retry_required, hin.next_sequence, hin.number_of_packets, hout.done, itf.ep_reset]
+    hout = itf.handshakes_out
     outs = [dut.stream.ready, itf.tx.valid, itf.tx.first, itf.tx.last, itf.tx.payload, itf.tx_zlp, itf.tx_length,
-            itf.tx_sequence_number, itf.tx_endpoint_number, hout.send_nrdy, hout.send_erdy]
+            itf.tx_sequence_number, itf.tx_endpoint_number, hout.send_nrdy, hout.send_erdy, hout.endpoint_number]
+    if kind == "alone":
+        top, hin, tx = dut, itf.handshakes_in, itf.tx
+        ins = [dut.stream.valid, dut.stream.last, dut.stream.payload, tx.ready, hin.ack_received, hin.endpoint_number,
+               hin.retry_required, hin.next_sequence, hin.number_of_packets, hout.done, itf.ep_reset, hout.ready]
+        names_in, names_out = IN_NAMES, OUT_NAMES
+    else:
+        top = build_loop(dut, kind == "loopmux")
+        hin, tx, gen = top.shared.handshakes_in, top.shared.tx, top.gen
+        # through the multiplexer ep_reset is the shared config_changed strobe, which an endpoint raises
+        ep_reset = itf.config_changed if kind == "loopmux" else itf.ep_reset
+        ins = [dut.stream.valid, dut.stream.last, dut.stream.payload, tx.ready, hin.ack_received, hin.endpoint_number,
+               hin.retry_required, hin.next_sequence, hin.number_of_packets, gen.header_source.ready, ep_reset, gen.address]
+        outs = outs + [gen.interface.ready, gen.interface.done, gen.header_source.valid, gen.header_source.header.dw0,
+                       gen.header_source.header.dw1]
+        names_in, names_out = IN_NAMES_LOOP, OUT_NAMES_LOOP
     rng = Rng(desc["seed"])
-    agent = Agent(rng, mps, ep, desc["mode"], desc.get("k", 0))
+    lmax = desc.get("lmax")
+    agent = Agent(rng, mps, ep, desc["mode"], desc.get("k", 0), kind, 3 if lmax is None else lmax, desc.get("race"))
     ncycles = min(6000, 200 + 14 * len(agent.words) + (400 if mps <= 64 else 3000))
-    stim, rows = run_reactive(dut, ins, outs, agent, ncycles, fixed=desc.get("stimulus"))
+    stim, rows = run_reactive(top, ins, outs, agent, ncycles, fixed=desc.get("stimulus"))
     fails, tags = [], []
     if desc["mode"] == "script":
-        fails, tags = monitor(mps, ep, stim, rows)
-    tags = ["mps=%d" % mps, "mode=" + desc["mode"]] + tags
+        fails, tags = monitor(mps, ep, stim, rows, kind)
+    tags = ["mps=%d" % mps, "mode=" + desc["mode"], "kind=" + kind] + tags
     if desc.get("directed"):
         tags.append("directed:" + desc["directed"])
     if desc["mode"] == "script":
@@ -460,5 +694,7 @@ def run_case(desc):
         tags.append("tps-before-finding>=%d" % (20 if npk >= 20 else 10 if npk >= 10 else 5 if npk >= 5 else 0))
         if agent.benign:
             tags.append("profile=benign")
+        if agent.teaser:
+            tags.append("profile=teaser")
     aw = max(0, (mps // 4 - 1).bit_length())
-    return Case([mps, ep, aw], stim, rows, fails, tags, desc, IN_NAMES, OUT_NAMES)
+    return Case([mps, ep, aw, KINDS[kind]], stim, rows, fails, tags, desc, names_in, names_out)
